@@ -5,7 +5,7 @@ import seqfam
 from seqfam import consts, params_of, FORKS
 
 CHECKS = {}
-B_AUTH = {"badsig", "badtext", "unknownkey", "hashflip", "nosig"}
+B_AUTH = {"badsig", "badtext", "unknownkey", "hashflip", "nosig", "trailingblank"}
 MALFORMED = {"nosize", "suffix", "notb64", "noblank", "cp-one-line", "empty-body", "oversize"}
 
 
